@@ -3,7 +3,6 @@ package patch
 import (
 	"errors"
 	"fmt"
-	"strings"
 
 	dtpb "github.com/google/fhir/go/proto/google/fhir/proto/r4/core/datatypes_go_proto"
 	"github.com/iancoleman/strcase"
@@ -586,15 +585,17 @@ func (e *Expression) getRefAndFieldForCollection(collection system.Collection, t
 func (e *Expression) unwrapOneof(obj proto.Message) proto.Message {
 	message := obj.ProtoReflect()
 	descriptor := message.Descriptor()
-	if name := string(descriptor.Name()); !(strings.HasSuffix(name, "ValueX") || name == "ContainedResource") {
-		return obj
-	}
 	oneofsNum := descriptor.Oneofs().Len()
 	if oneofsNum != 1 {
 		return obj
 	}
 
 	oneof := descriptor.Oneofs().Get(0)
+	// Choice elements (value[x], deceased[x], effective[x], ...) are modelled as
+	// wrapper messages holding a single oneof named "choice".
+	if !(oneof.Name() == "choice" || descriptor.Name() == "ContainedResource") {
+		return obj
+	}
 	field := message.WhichOneof(oneof)
 	if oneof == nil || field == nil {
 		return obj
